@@ -24,6 +24,8 @@ func runC03(p *Program, r *Report) {
 	ruleR032(p, r)
 	r.Rule("R03.3", "E3", 3, "transparent path hands damaged values back unchanged: DecryptHandler.OnCryptoEnvelope returns the very container it was given (and no error) when decryption fails; EnvelopeDetector.OnColumn re-emits the input byte at the cursor on every edge where no callback produced plaintext; a non-decryption error aborts with the original buffer")
 	ruleR033(p, r)
+	r.Rule("R03.4", "E2", 1, "a buffer that was handed to the caller is never rewritten in place: the searchable-column processor returns its saved copy of the stored value (rawData) when verification fails and the proxy keeps that slice until the row is written; every in-place write into that field's backing array (copy into it, append onto a re-slice of it, element store) must follow a fresh allocation assigned to the field in the same function")
+	ruleR034(p, r)
 }
 
 func ruleR032(p *Program, r *Report) {
@@ -263,4 +265,136 @@ func init() {
 	mut("C03", "rotated searchable AcraBlock: mismatch returns data with nil error", "hmac/dataProcessor.go", "	data, err := block.Decrypt(symKeys, context)\n	if err != nil {\n		return nil, err\n	}\n	if !hash.IsEqual(data, context, SimpleHmacKeyStore(hmacKey)) {\n		return data, ErrHMACNotMatch\n	}", "	data, err := block.Decrypt(symKeys, context)\n	if err != nil {\n		return nil, err\n	}\n	if !hash.IsEqual(data, context, SimpleHmacKeyStore(hmacKey)) {\n		return data, nil\n	}", "R03.2", "DecryptRotatedSearchableAcraBlock")
 	mut("C03", "failed decryption hands back an empty value", "crypto/decryptor.go", "		}).WithError(err).Warningln(\"Can't decrypt SerializedContainer\")\n		return container, nil", "		}).WithError(err).Warningln(\"Can't decrypt SerializedContainer\")\n		return decrypted, nil", "R03.3", "OnCryptoEnvelope")
 	mut("C03", "container length accepted when shorter than the header", "crypto/registry_handler.go", "	if len(data) <= SerializedContainerMinSize {\n		return 0, ErrIncorrectSerializedContainer\n	}\n\n	if !bytes.Equal(data[:len(TagBegin)], TagBegin) {", "	if len(data) == 0 {\n		return 0, ErrIncorrectSerializedContainer\n	}\n\n	if !bytes.Equal(data[:len(TagBegin)], TagBegin) {", "R03.1", "validateSerializedContainer")
+}
+
+func ruleR034(p *Program, r *Report) {
+	tn := p.Type("hmac.Processor")
+	if tn == nil {
+		r.Anchor("R03.4", "hmac.Processor")
+		return
+	}
+	st, _ := tn.Type().Underlying().(*types.Struct)
+	// fields of []byte type returned by some method
+	escaping := map[int]string{}
+	var methods []*ssa.Function
+	for _, fn := range p.SrcFuncs("hmac") {
+		if fn.Signature.Recv() == nil || !strings.Contains(fn.Signature.Recv().Type().String(), "hmac.Processor") {
+			continue
+		}
+		methods = append(methods, fn)
+		for _, ret := range returnsOf(fn) {
+			for i := range ret.Results {
+				for _, leaf := range leavesOf(retValue(ret, i), leafOpts{}) {
+					if u, ok := leaf.(*ssa.UnOp); ok {
+						if fa, ok := u.X.(*ssa.FieldAddr); ok && fa.X == ssa.Value(fn.Params[0]) {
+							if _, isSl := st.Field(fa.Field).Type().Underlying().(*types.Slice); isSl {
+								escaping[fa.Field] = st.Field(fa.Field).Name()
+							}
+						}
+					}
+				}
+			}
+		}
+	}
+	if len(escaping) == 0 {
+		r.Bad("R03.4", "hmac.Processor", "escaping buffers", p.Pos(tn.Pos()), "no buffer field is returned any more; the rule has lost its subject")
+		return
+	}
+	n := 0
+	for _, fn := range methods {
+		recv := fn.Params[0]
+		// loads of escaping fields
+		isFieldLoad := func(v ssa.Value) (int, *ssa.UnOp) {
+			for d := 0; d < 6; d++ {
+				switch x := v.(type) {
+				case *ssa.Slice:
+					v = x.X
+					continue
+				case *ssa.UnOp:
+					if fa, ok := x.X.(*ssa.FieldAddr); ok && fa.X == ssa.Value(recv) {
+						if _, esc := escaping[fa.Field]; esc {
+							return fa.Field, x
+						}
+					}
+				}
+				break
+			}
+			return -1, nil
+		}
+		fresh := func(field int, load *ssa.UnOp) bool {
+			// the latest store to the field that precedes the load must assign a fresh allocation
+			var last *ssa.Store
+			for _, b := range fn.Blocks {
+				for _, in := range b.Instrs {
+					st, ok := in.(*ssa.Store)
+					if !ok {
+						continue
+					}
+					fa, ok := st.Addr.(*ssa.FieldAddr)
+					if !ok || fa.X != ssa.Value(recv) || fa.Field != field {
+						continue
+					}
+					if instrBefore(st, load) && (last == nil || instrBefore(last, st)) {
+						last = st
+					}
+				}
+			}
+			if last == nil {
+				return false
+			}
+			switch v := last.Val.(type) {
+			case *ssa.MakeSlice:
+				return true
+			case *ssa.Call:
+				if b, ok := v.Call.Value.(*ssa.Builtin); ok && b.Name() == "append" {
+					base := stripConv(v.Call.Args[0])
+					if isNilConst(base) {
+						return true
+					}
+					if _, isMake := base.(*ssa.MakeSlice); isMake {
+						return true
+					}
+					if sl, ok := base.(*ssa.Slice); ok {
+						if _, isAlloc := sl.X.(*ssa.Alloc); isAlloc {
+							return true // []byte{} literal
+						}
+					}
+				}
+			}
+			return false
+		}
+		for _, b := range fn.Blocks {
+			for _, in := range b.Instrs {
+				var dst ssa.Value
+				what := ""
+				switch x := in.(type) {
+				case *ssa.Call:
+					if bi, ok := x.Call.Value.(*ssa.Builtin); ok {
+						switch bi.Name() {
+						case "copy":
+							dst, what = x.Call.Args[0], "copy into"
+						case "append":
+							dst, what = x.Call.Args[0], "append onto"
+						}
+					}
+				case *ssa.Store:
+					if ia, ok := x.Addr.(*ssa.IndexAddr); ok {
+						dst, what = ia.X, "element store into"
+					}
+				}
+				if dst == nil {
+					continue
+				}
+				field, load := isFieldLoad(dst)
+				if field < 0 {
+					continue
+				}
+				n++
+				r.Check(fresh(field, load), "R03.4", fnName(fn), what+" ."+escaping[field], p.Pos(in.Pos()), "the field was assigned a fresh allocation earlier in this function", "the buffer in ."+escaping[field]+" may still be held by the caller (it is returned on the verification-failure path) and is rewritten in place here: a damaged value already handed to the client side is overwritten with another column's bytes")
+			}
+		}
+	}
+	if n == 0 {
+		r.Bad("R03.4", "hmac.Processor", "in-place writes", p.Pos(tn.Pos()), "no write into the saved buffer found; the rule has lost its subject")
+	}
 }
